@@ -40,8 +40,9 @@ def has_var(e):
 def opaque_set(x, rhs):
     """a declaration whose right side is a constant expression would make the name a constant the folder propagates
     (`y := true; if y {..} else {..}` is typed by its first branch only): put the constant behind an opaque condition"""
-    if has_var(rhs):
+    if has_var(rhs) and not (x is None and rhs[0] == "tuple"):
         return rhs
+    # (`x is None`: the source of a destructuring; a tuple LITERAL there hands its constant elements to the names one by one)
     return ("if", V("pb"), ("block", [rhs]), ("block", [rhs]))
 
 
@@ -182,7 +183,7 @@ class Gen:
                 return V(r.choice(vars_))
             return lit
         sub = lambda t: self.rec(self.typed(t, env, d - 1, noise), t)
-        anyv = lambda: V(r.choice(env))
+        anyv = lambda: V(r.choice([n for n, _ in env]))
         if ty == INT:
             lit = I(r.choice([0, 1, 2, -1, 63, 64, 7]))
             if d <= 0:
@@ -422,6 +423,12 @@ FREE_S = FREE + [
     ("ci", _cell(INT), ("mut", INT, I(4))), ("cf", _cell(FLOAT), ("mut", FLOAT, ("f", 0.5))), ("cs", _cell(STR), ("mut", STR, ("s", "c"))),
     ("cb", _cell(BOOL), ("mut", BOOL, ("false",))), ("ca", _cell(arr(INT)), ("mut", arr(INT), ("array", [I(1)]))),
     ("cu", _cell(multi(INT, STR)), ("mut", multi(INT, STR), I(2))),
+    # union-typed OPERANDS: a union of tuple types, of cell types, of function types (and `pua`, a union of indexable types)
+    ("put", multi(tup(INT, STR), tup(FLOAT, STR, BOOL)), ("tuple", [I(1), ("s", "t")])),
+    ("puc", multi(_cell(INT), _cell(multi(INT, FLOAT))), ("mut", INT, I(1))),
+    ("puf", multi(("fn", (INT,), INT), ("fn", (multi(INT, FLOAT),), STR)), ("fn", [("q", INT)], INT, [("return", V("q"))])),
+    ("pum", multi(("fn", (_cell(INT),), INT), ("fn", (_cell(multi(INT, FLOAT)),), INT)), ("fn", [("q", _cell(INT))], INT, [("return", ("pre", "deref", V("q")))])),
+    ("pug", multi(("fn", (INT, STR), arr(INT)), ("fn", (multi(INT, FLOAT), STR), arr(INT))), ("fn", [("q", INT), ("w", STR)], arr(INT), [("return", ("array", [V("q")]))])),
 ]
 
 
@@ -462,6 +469,17 @@ class GenS(GenF):
             body.append(("if", self.ftyped(BOOL, env, d - 1, noise), ("block", [(r.choice(["break", "continue"]),)]), None))
         body.append(("break",))
         k = r.random()
+        iters = [(n, t) for n, t in env if t[0] == "fn" and t[1] == () and t[2][0] == "tup" and len(t[2][1]) == 2 and t[2][1][0] == BOOL]
+        if iters and r.random() < 0.45:
+            # `for x in it { .. }`: the body may use x (and need not end with `break`)
+            n, t = r.choice(iters)
+            x = r.choice(["x", "y", "pi"])
+            benv = [(x, t[2][1][1])] + [(nn, tt) for nn, tt in env if nn != x]
+            fbody = [self.ftyped(r.choice(self.TYPES), benv, d - 1, noise) for _ in range(r.randint(0, 2))]
+            if r.random() < 0.5:
+                fbody.append(("if", self.ftyped(BOOL, benv, d - 1, noise), ("block", [(r.choice(["break", "continue"]),)]), None))
+            it = V(n) if r.random() > noise else self.ftyped(r.choice(self.TYPES), env, 0, noise)
+            return ("for", x, it, ("block", fbody))
         if k < 0.4:
             return ("loop", ("block", body))
         if k < 0.8:
@@ -474,6 +492,34 @@ class GenS(GenF):
 
     def typed(self, ty, env, d, noise=0.08):
         r = self.rnd
+        names = [n for n, _ in env]
+        if d > 0 and r.random() < 0.12:
+            # an operator applied to an operand of a UNION type (index / tuple access / `*` / call / `=` through a union)
+            wrong = r.random() < noise
+            opts = []
+            if ty == multi(INT, FLOAT) and "put" in names:
+                opts.append(("tacc", V("put"), 2 if wrong else 0))
+            if ty == multi(INT, FLOAT) and "puc" in names:
+                opts.append(("pre", "deref", V("puc")))
+            if ty == STR and "put" in names:
+                opts.append(("tacc", V("put"), 1))
+            if ty == multi(INT, STR) and "pua" in names:
+                opts.append(("at", V("pua"), self.ftyped(FLOAT if wrong else INT, env, d - 1, noise)))
+            if ty == multi(INT, STR) and "puf" in names:
+                opts.append(("call", V("puf"), [self.ftyped(FLOAT if wrong else INT, env, d - 1, noise)]))
+            if ty == INT and "pum" in names and "ci" in names:
+                # the parameter types `mut int` and `mut (int|float)` have no common lower bound but `!`: never callable
+                opts.append(("call", V("pum"), [V("ci")]))
+            if ty == arr(INT) and "pug" in names:
+                opts.append(("call", V("pug"), [self.ftyped(FLOAT if wrong else INT, env, d - 1, noise), self.ftyped(STR, env, d - 1, noise)]))
+            if ty == INT and "puc" in names and getattr(self, "_ins", 0) == 0:
+                self._ins = 1
+                try:
+                    opts.append(("assign", "set", V("puc"), self.ftyped(FLOAT if wrong else INT, env, d - 1, noise)))
+                finally:
+                    self._ins = 0
+            if opts:
+                return r.choice(opts)
         if ty[0] == "cell":
             cs = [n for n, t in env if t == ty]
             return V(r.choice(cs)) if cs else ("mut", ty[1], self.ftyped(ty[1], env, max(d - 1, 0), noise))
@@ -504,9 +550,26 @@ class GenS(GenF):
             body_env = [(fname, ft)] + [(n, t) for n, t in env if n != fname]
             out.append(("fndecl", fname, ps, rt, self.fn_body(ps, rt, body_env, depth - 1, noise, fname)))
             env = body_env
+        if r.random() < 0.5:
+            # a hand-written iterator `() -> (bool, T)`
+            et = r.choice([INT, STR, multi(INT, FLOAT)])
+            ft = ("fn", (), tup(BOOL, et))
+            body_env = [("it", ft)] + [(n, t) for n, t in env if n != "it"]
+            out.append(("fndecl", "it", [], tup(BOOL, et), self.fn_body([], tup(BOOL, et), body_env, depth - 1, noise, "it")))
+            env = body_env
         for _ in range(r.randint(1, 4)):
             k = r.random()
-            if k < 0.45:
+            if k < 0.12:
+                # `(a, b) := e` on a tuple-typed expression (sometimes of the wrong length / not a tuple)
+                tt = r.choice([tup(INT, STR), tup(BOOL, INT), tup(INT, STR, FLOAT)])
+                names = [r.choice(["x", "y", "z", "pi"]) for _ in tt[1]]
+                if r.random() < noise:
+                    names = names[:-1]
+                src = self.ftyped(tt if r.random() > noise else r.choice(self.TYPES), env, depth - 1, noise)
+                out.append(("destruct", names, src))
+                for nm, ty in zip(names, tt[1]):
+                    env = [(nm, ty)] + [(n, t) for n, t in env if n != nm]
+            elif k < 0.45:
                 out.append(self.cell_stmt(env, depth - 1, noise))
             elif k < 0.7:
                 out.append(self.loop_stmt(env, depth - 1, noise))
